@@ -16,6 +16,7 @@ From Tinode Require Import Pure.Url Pure.UrlProofs Sys.Files Sys.FilesGateProofs
 From Tinode Require Import Sys.FilesSaveC16b Sys.FilesSaveC16bProofs.
 From Tinode Require Import Sys.FilesServeC16c Sys.FilesServeC16cProofs Sys.FilesDescC16c Sys.FilesDescC16cProofs.
 From Tinode Require Import Sys.FilesAccC16c Sys.FilesAccC16cProofs.
+From Tinode Require Import Sys.FilesTypeC16f Sys.FilesTypeC16fProofs.
 Import ListNotations.
 
 (* ------------------------------------------------------------------ *)
@@ -1008,3 +1009,105 @@ Example c16_ex_set_desc_fault :
   links (dd_fs (fst r')) = [(parse_uid lf_name_b_c16c, TTopic 1)] /\
   file_ids (step (dd_fs (fst r')) (OGC None 0)) = [parse_uid lf_name_b_c16c].
 Proof. vm_compute. repeat split; reflexivity. Qed.
+
+(* ------------------------------------------------------------------ *)
+(* part f: the stored content type, the disposition of the later download, the GC cut-off.
+   [sniff] = http.DetectContentType of the first 512 bytes, [declared] = the parsed Content-Type
+   of the multipart part (None: mime.ParseMediaType failed); both are inputs (stdlib). *)
+
+(* 'the detected content type': whatever the client declares, the stored type is the sniffed one
+   unless the sniffed type is exactly application/octet-stream *)
+Theorem c16_declared_type_only_for_undetectable : forall sniff declared,
+  (sniff <> s_octet_c16f -> stored_type_c16f sniff declared = sniff) /\
+  (stored_type_c16f sniff declared = sniff \/
+   (sniff = s_octet_c16f /\
+    exists d, declared = Some d /\ stored_type_c16f sniff declared = d_formatted d /\ d_formatted d <> [] /\
+      exists a, In a allowed_mime_types_c16f /\ has_prefix a (d_media d) = true)).
+Proof.
+  intros sniff declared. split; [apply stored_type_c16f_detected|apply stored_type_c16f_char].
+Qed.
+Print Assumptions c16_declared_type_only_for_undetectable.
+
+(* ... and for an undetectable body a well-formed declared type of a listed family is the stored type *)
+Theorem c16_declared_type_used_for_undetectable : forall d a,
+  In a allowed_mime_types_c16f -> has_prefix a (d_media d) = true -> d_formatted d <> [] ->
+  stored_type_c16f s_octet_c16f (Some d) = d_formatted d.
+Proof. exact stored_type_c16f_undetectable. Qed.
+Print Assumptions c16_declared_type_used_for_undetectable.
+
+(* the download of a detectable upload carries the sniffed type and the disposition of the sniffed
+   type: the declared type has no influence *)
+Theorem c16_served_type_is_detected : forall asatt sniff declared,
+  sniff <> s_octet_c16f ->
+  served_c16f asatt sniff declared = (sniff, force_attachment asatt sniff).
+Proof. exact served_c16f_detected. Qed.
+Print Assumptions c16_served_type_is_detected.
+
+(* 'forced to be saved for active content (HTML, XML, text and application types)': content that
+   sniffs as an active type is served under that type with Content-Disposition: attachment
+   whatever was declared, with or without asatt.  (For application/octet-stream itself the
+   declared type, when usable, decides: hdl_files.go:290-302.) *)
+Theorem c16_application_forced_download : forall asatt sniff declared,
+  active sniff = true -> sniff <> s_octet_c16f \/ declared = None ->
+  served_c16f asatt sniff declared = (sniff, true).
+Proof. exact served_c16f_active_forced. Qed.
+Print Assumptions c16_application_forced_download.
+
+(* the same statement for a handler that consults the declared type for every application/* sniff
+   is false: application/pdf declared as image/png would be displayed *)
+Definition c16_application_forced_download_wide_statement : Prop :=
+  forall asatt sniff declared, active sniff = true -> sniff <> s_octet_c16f \/ declared = None ->
+  (stored_type_wide_c16f sniff declared, force_attachment asatt (stored_type_wide_c16f sniff declared)) = (sniff, true).
+Theorem c16_application_forced_download_wide_refuted : ~ c16_application_forced_download_wide_statement.
+Proof.
+  intros H.
+  assert (Ha : active s_pdf_c16f = true) by (vm_compute; reflexivity).
+  assert (Hn : s_pdf_c16f <> s_octet_c16f) by discriminate.
+  specialize (H false s_pdf_c16f (Some {| d_media := s_png_c16f; d_formatted := s_png_c16f |}) Ha (or_introl Hn)).
+  revert H. vm_compute. discriminate.
+Qed.
+Print Assumptions c16_application_forced_download_wide_refuted.
+
+(* 'collectable after the grace period': the cut-off one tick of the GC loop hands to
+   DeleteUnused is one hour before the tick, for every configured period *)
+Theorem c16_gc_cutoff_independent_of_period : forall now p1 p2,
+  gc_cutoff_c16f now p1 = gc_cutoff_c16f now p2 /\ (now - gc_cutoff_c16f now p1 = hour_c16f)%Z.
+Proof. intros. split; [apply gc_cutoff_c16f_const|apply gc_cutoff_c16f_hour]. Qed.
+Print Assumptions c16_gc_cutoff_independent_of_period.
+
+(* after any history, a tick of the loop with any period and block size leaves every upload record
+   that was updated less than (or exactly) one hour ago, linked or not, and its bytes *)
+Theorem c16_gc_respects_grace_period : forall h now period block f,
+  let s := run h in
+  In f (files s) -> (now - hour_c16f <= f_upd f)%Z ->
+  In f (files (gc_tick_c16f s now period block)) /\
+  (In (f_id f) (disk s) -> In (f_id f) (disk (gc_tick_c16f s now period block))).
+Proof.
+  intros h now period block f s. apply gc_tick_c16f_grace. destruct (inv_run h) as [H _]. exact H.
+Qed.
+Print Assumptions c16_gc_respects_grace_period.
+
+(* the tick is exactly DeleteUnused(now - 1h, block): c16_gc_exact describes what it removes *)
+Theorem c16_gc_tick_is_delete_unused : forall s now period block,
+  gc_tick_c16f s now period block = step s (OGC (Some (now - hour_c16f)%Z) block).
+Proof. exact gc_tick_c16f_eq. Qed.
+Print Assumptions c16_gc_tick_is_delete_unused.
+
+(* the jittered tick period is within [0.75, 1.25) of the configured one; a period of at most one
+   nanosecond makes rand.Intn panic in the loop's goroutine (not reachable from a request: the
+   period is configuration) *)
+Theorem c16_gc_tick_period : forall period r,
+  ((period <= 1)%Z -> gc_tick_period_c16f period r = None) /\
+  (forall p, (0 <= r < Z.shiftr period 1)%Z -> gc_tick_period_c16f period r = Some p ->
+     (Z.shiftr period 1 + Z.shiftr period 2 <= p < 2 * Z.shiftr period 1 + Z.shiftr period 2)%Z).
+Proof.
+  intros period r. split; [apply gc_tick_period_c16f_panics|intros p; apply gc_tick_period_c16f_range].
+Qed.
+Print Assumptions c16_gc_tick_period.
+
+(* a cut-off derived from the period collects a two-minute-old unlinked upload when the period is 60 s *)
+Example c16_gc_cutoff_by_period_collects_young :
+  let s := run [OStart 5 0 []; OFinish 5 true 0] in
+  file_ids (step s (OGC (Some (gc_cutoff_by_period_c16f 120000000000 60000000000)) 100)) = [] /\
+  file_ids (gc_tick_c16f s 120000000000 60000000000 100) = [5%N].
+Proof. vm_compute. split; reflexivity. Qed.
